@@ -512,6 +512,14 @@ func genPoolEntry(t *rapid.T) []byte {
 		p := m.Payload()
 		return enc.Frame(p[:rapid.IntRange(8, len(p)).Draw(t, "cut")])
 	default:
+		if rapid.Bool().Draw(t, "nmea") {
+			return []byte(rapid.SampledFrom([]string{
+				"$GPGGA,123519,4807.038,N,01131.000,E,1,08,0.9,545.4,M,46.9,M,,*47\r\n",
+				"$GNRMC,001031.00,A,5128.0,N,00018.6,W,0.1,,010221,,,A*7B\r\n$GPGSV,3,1,11,03,03,111,00,04,15,270,00*74\r\n",
+				"$GPTXT,01,01,02,u-blox ag*50\n",
+				"ICY 200 OK\r\n\r\n",
+			}).Draw(t, "sentence"))
+		}
 		return gen.Junk(t, false, 20)
 	}
 }
